@@ -69,7 +69,7 @@ func newHandleModel(c *Ctx, rule string) *handleModel {
 					continue
 				}
 				callee := g.Call.StaticCallee()
-				if callee == nil || callee.Signature.Recv() == nil {
+				if callee == nil || callee.Blocks == nil {
 					continue
 				}
 				hasSearch, hasChan := false, false
@@ -92,7 +92,24 @@ func newHandleModel(c *Ctx, rule string) *handleModel {
 		c.R.Undecided(rule, "anchor:iterative-deepening controller", "", "", "no method started with `go` that takes the root Search and the PV channel found in pkg/search/searchctl")
 		return nil
 	}
-	rt := h.process.Signature.Recv().Type()
+	// the handle: the receiver, or - when the controller is a plain function - the parameter whose
+	// type has a Halt method
+	var rt types.Type
+	if recv := h.process.Signature.Recv(); recv != nil {
+		rt = recv.Type()
+	} else {
+		for _, p := range h.process.Params {
+			if n := pointeeNamed(p.Type()); n != nil && n.Obj().Pkg() == sp.Pkg {
+				if c.P.Func("pkg/search/searchctl", n.Obj().Name(), "Halt") != nil {
+					rt = p.Type()
+				}
+			}
+		}
+	}
+	if rt == nil {
+		c.R.Undecided(rule, "anchor:handle type", c.pos(h.process.Pos()), "", "the controller has neither a receiver nor a parameter with a Halt method")
+		return nil
+	}
 	if pt, ok := rt.(*types.Pointer); ok {
 		rt = pt.Elem()
 	}
